@@ -165,7 +165,7 @@ def check(prop, tier, spec):
                 elif e["overlap"] and "overlap" in spec.get("end_oracles", ()):
                     bad = "session callbacks overlapped in time"
                 elif not e["intact"] and "intact" in spec.get("end_oracles", ()):
-                    bad = "a slice handed to the update handler was modified afterwards"
+                    bad = "a slice handed to a plugin callback (UPDATE body, capability value) was modified afterwards"
                 elif e["fail"] and not e["fail"].startswith("bubble:"):
                     skipped += 1   # the script could not be driven to its end (prefix validated)
             if bad:
